@@ -5,20 +5,7 @@ from rules_c01 import _must_pass
 from rules_incr import panic_sites, state_delete_fns, state_save_fns, state_read_fns
 
 
-def closure_bodies_passed(body, t):
-    """closure bodies constructed as direct arguments of a call"""
-    out = []
-    for a in t["args"]:
-        l = operand_local(a)
-        if l is None:
-            continue
-        for kind, x, bb in body.prov.direct_producers(l):
-            if kind == "agg" and x["rv"].get("closure") in body.facts.bodies:
-                out.append(body.facts.view(x["rv"]["closure"]))
-    return out
-
-
-RESTRICTING = r"::(take|skip|filter|step_by|take_while|skip_while|nth|last|find|find_map|position|min\w*|max\w*|first|get|split_first|split_last|chunks\w*|windows)(::<.*>)?$"
+# RESTRICTING: defined in common.py
 
 
 def iteration_context(f, raw, bb, depth=0):
@@ -219,7 +206,7 @@ def filter_respected(ctx):
             ok = False
             for e in rv.edges:
                 if e.label and e.label[0] == "bool" and e.label[1] is True and nb in rv.dominated_by_edge(e):
-                    if origin_matches(edge_origin(rv, e), lambda o: o[0] in ("await", "call") and o[1] and o[1].endswith("Path::" + what)):
+                    if origin_matches(edge_origin(rv, e), lambda o: o[0] in ("await", "call") and o[1] and re.search(r"(Path|Metadata|FileType)::" + what + "$", o[1])):
                         ok = True
             ctx.check(ok, f"{short(r.outer_fn(b).name)}/{base.split('::')[-1]}", [site(rv, nb)], f"`{base.split('::')[-1]}` is not guarded by `{what}()`")
             # plain cleaning happens where there is no filter
@@ -282,6 +269,10 @@ def scope(ctx):
                 tgt_names.add(nm)
             if re.search(r"(Vec|HashSet|BTreeSet)<[\w:]*PathBuf>", ty):
                 dir_names.add(nm)
+            # ... or carried by a variant of a small local enum (`CleanScope::AllProjects(dirs)`)
+            tyn = ty.replace("&", "").replace("mut ", "").strip()
+            if tyn in f.adts and f.adts[tyn]["enum"] and any(re.search(r"(Vec|HashSet|BTreeSet)<[\w:]*PathBuf>", fd["ty"]) for v_ in f.adts[tyn]["variants"] for fd in v_["fields"]):
+                dir_names.add(nm)
         return req_names, req_true, req_false, tgt_names, dir_names
     # a preliminary step of `--clean` may run in an async block of its own, guarded in main's body (`if clean && requested.is_none() { block_on(..) }`)
     siblings = []
@@ -314,6 +305,28 @@ def scope(ctx):
         return lambda d: d[0] == "field" and d[1] in names
     Gs = guard_region(ma, req_test("is_some"), True, within=Gc) | guard_region(ma, req_test("is_none"), False, within=Gc) | guard_region(ma, flag(req_true), True, within=Gc) | guard_region(ma, flag(req_false), False, within=Gc)
     Gn = guard_region(ma, req_test("is_some"), False, within=Gc) | guard_region(ma, req_test("is_none"), True, within=Gc) | guard_region(ma, flag(req_true), False, within=Gc) | guard_region(ma, flag(req_false), True, within=Gc)
+    # the scope may have been decided once, as a variant of a small local enum built in main under the test of the TARGETS argument
+    # (`match values_of(TARGETS) { Some(..) => Scope::Requested, None => Scope::All(dirs) }`): the arms of a match on it are guarded accordingly
+    def targets_opt_edge(e, which):
+        l_ = e.label
+        return bool(l_ and l_[0] == "variant" and l_[2] == (which,) and
+                    origin_matches(edge_origin(mraw, e), lambda o: o[0] == "call" and re.search(r"ArgMatches::values_of(_lossy)?$", o[1]) is not None and
+                                   any(a[0] == "static" and a[1].endswith("TARGETS") for x in o[3]["args"] for a in mraw.prov.operand_atoms(x))))
+    for ap, adt in f.adts.items():
+        if not adt["enum"] or ap.startswith("std::") or ap.startswith("core::"):
+            continue
+        for v_ in adt["variants"]:
+            sites_ = [bb for (bb, st) in mraw.aggregates(ap.split("::")[-1], v_["name"]) if st["rv"].get("adt") == ap]
+            if not sites_:
+                continue
+            for which, tgt in (("Some", "s"), ("None", "n")):
+                es = [e for e in mraw.edges if targets_opt_edge(e, which)]
+                if es and all(any(bb in mraw.dominated_by_edge(e) for e in es) for bb in sites_):
+                    reg = variant_region(ma, ap.split("::")[-1], v_["name"], within=Gc) if Gc else set()
+                    if tgt == "s":
+                        Gs |= reg
+                    else:
+                        Gn |= reg
     n = 0
     # destructive sites: deletion API sites located in main's view, and calls (in main's view) of local fns that delete
     items = []
@@ -732,7 +745,26 @@ def predicate_atoms(ctx):
         nofilter = any(re.search(r"Option::<.*>::(is_none_or|map_or)(::<.*>)?$", callee_decl(t)) for b in bodies for bb, t in b.calls()) or \
             any(e.label and e.label[0] == "variant" and e.label[2] == ("None",) for e in p.edges)
         anyext = any(re.search(r"Iterator>::any(::<.*>)?$", callee_decl(t)) for b in bodies for bb, t in b.calls())
+        # ... or an explicit loop over the extensions around the suffix test
+        anyext = anyext or any(bb in blks for (b, bb, t) in ends for (nbb, sbb, ne, se, blks, it_atoms) in for_loops(b))
         ctx.check(nofilter and anyext, f"{short(p.name)}/shape", [p.loc()], "the predicate is not `no filter, or any extension matches`")
+        # nothing else about the file decides: the only thing the predicate asks of the path is its file name (`extension()` is None for `.env`, `file_stem`,
+        # `to_str`, the file system ... all make some name that ends with a declared extension drop out)
+        other = []
+        for b in bodies:
+            discr = {e.label[2] for e in b.edges if e.label and e.label[0] == "bool" and e.label[2] is not None} | \
+                    {e.label[3]["local"] for e in b.edges if e.label and e.label[0] == "variant" and len(e.label) > 3 and isinstance(e.label[3], dict)}
+            for bb, t in b.calls():
+                base = t["callee"]["base"]
+                if not re.search(r"\bPath::\w+$", base) or re.search(r"Path::(file_name|display|to_string_lossy|as_ref|as_os_str|new)$", base) or not t["args"] or t.get("dest") is None:
+                    continue
+                at = b.prov.operand_atoms(t["args"][0], interproc=False)
+                if ("param", 1) in at or any(a[0] == "field" and a[1].startswith("{env of") for a in at):
+                    if b.prov.flows_forward(t["dest"]["local"]) & {x for x in discr if isinstance(x, int)}:
+                        other.append((b, bb, base))
+        ctx.check(not other, f"{short(p.name)}/only-the-file-name", [site(b, bb) for b, bb, _ in other] or [p.loc()],
+                  "the predicate also decides on " + ", ".join(sorted({short(c) for _, _, c in other})) + ": a file whose name ends with a declared extension can be left out "
+                  "(e.g. `.env` has no `extension()`)")
 
 
 @rule("C15.REGULAR-FILES", ["C15"], """the lister keeps an entry only if it is a regular file and matches the extension predicate, prunes directories named like the work directory, and
@@ -1059,82 +1091,83 @@ def state_path_pure(ctx):
     r = ctx.r
     f = ctx.f
     sp = r.state_path_fns()
-    ctx.need(len(sp) == 1, f"state path function (found {len(sp)})")
-    b = sp[0]
-    at = b.prov.atoms(0)
-    fields = {a[2] for a in at if a[0] == "field" and path_ends(a[1], "TargetMetadata")}
-    other_fields = {(a[1], a[2]) for a in at if a[0] == "field" and not path_ends(a[1], "TargetMetadata") and not a[1].startswith("(tuple") and not path_ends(a[1], "TargetId")}
-    statics = {a[1] for a in at if a[0] == "static"}
-    ext = {c for c in atom_callres(at) if re.search(r"std::env::|process::id|SystemTime|Instant|rand|current_dir|temp_dir", c)}
-    inputs_ok = "project_dir" in fields and b.argc == 1
-    split_sites = []
-    if not inputs_ok and b.argc >= 2 and not fields:
-        # the directory and the id come in as separate parameters: every place that supplies them (through any number of pass-through functions) must
-        # supply the `project_dir` and the `id` of one and the same target
-        def supplied(body, pidx, depth=0):
-            """[(caller raw body, bb, {param index: operand})] of the outermost call sites that feed parameters `pidx` of `body`"""
-            out = []
-            fn = r.fn_of(body)
-            for (c, cbb) in f.cg.call_sites.get(fn.name, ()):
-                if cbb is None or f.is_derived(f.bodies[c]) or f.bodies[c].term(cbb)["k"] != "call":
-                    continue
-                cb = f.bodies[c]
-                ct = cb.term(cbb)
-                ops = {i: ct["args"][i - 1] for i in pidx if i - 1 < len(ct["args"])}
-                through = {}
-                for i, o in ops.items():
-                    at_ = cb.prov.operand_atoms(o, interproc=False)
-                    env = [a for a in at_ if a[0] == "field" and a[1].startswith("{env of")]
-                    params = [a[1] for a in at_ if a[0] == "param"]
-                    real = [a for a in at_ if a[0] in ("field", "callres") and not a[1].startswith("{env of")]
-                    if not real and (params or env) and depth < 4:
-                        # a pass-through: the caller's own parameter (directly, or captured by its async body)
-                        outer = r.fn_of(cb)
-                        if env:
-                            names = [l.get("name") for l in outer.locals[1:outer.argc + 1]]
-                            js = [names.index(a[2]) + 1 for a in env if a[2] in names]
-                        else:
-                            js = params
-                        if js:
-                            through[i] = js[0]
-                if len(through) == len(ops) and through:
-                    inv = {}
-                    for i, j in through.items():
-                        inv[j] = i
-                    for (cc, cbb2, ops2) in supplied(r.fn_of(cb), sorted(inv), depth + 1):
-                        out.append((cc, cbb2, {inv[j]: o for j, o in ops2.items()}))
-                else:
-                    out.append((cb, cbb, ops))
-            return out
-        dir_params = [i for i in range(1, b.argc + 1) if re.search(r"Path(Buf)?$", b.locals[i]["ty"].replace("&", "").strip())]
-        id_params = [i for i in range(1, b.argc + 1) if re.search(r"Target(Id|Metadata)$", b.locals[i]["ty"].replace("&", "").strip())]
-        sites_ = supplied(b, dir_params + id_params) if len(dir_params) == 1 and len(id_params) == 1 else []
-        inputs_ok = bool(sites_)
-        for (cb, cbb, ops) in sites_:
-            d_at = cb.prov.operand_atoms(ops[dir_params[0]], interproc=False) if dir_params[0] in ops else set()
-            i_at = cb.prov.operand_atoms(ops[id_params[0]], interproc=False) if id_params[0] in ops else set()
-            same = {a[1] for a in d_at if a[0] == "localname"} & {a[1] for a in i_at if a[0] == "localname"}
-            good = atom_has_field(d_at, "project_dir", "TargetMetadata") and (atom_has_field(i_at, "id", "TargetMetadata") or any("TargetMetadata" in cb.locals[l]["ty"] for l in [operand_local(ops[id_params[0]])] if l is not None)) and bool(same)
-            split_sites.append(site(cb, cbb))
-            if not good:
-                inputs_ok = False
-    ctx.check(inputs_ok and not ext and not statics, f"{short(b.name)}/inputs", split_sites[:6] or [b.loc()], props=["C18", "C03"], found=
-              f"the state path depends on something else than the target's project directory and id (fields {sorted(fields)}, statics {sorted(statics)}, external {sorted(ext)})")
-    # the id goes in through Display of the metadata / id: a Display argument built from the parameter
-    def names_target(o):
-        # the target itself (its Display prints the id) or its `id` field - not something computed from it
-        return o[0] == "param" or (o[0] == "field" and o[1] and o[1][-1] == "id" and any(x[0] == "param" for x in o[2])) or \
-            (o[0] == "field" and len(o[1]) == 1 and o[1][0].isdigit() and any(x[0] == "tuple" and int(o[1][0]) < len(x[1]) and any(names_target(y) for y in x[1][int(o[1][0])]) for x in o[2]))
-    disp = any(t["callee"]["base"].endswith("Argument::<'_>::new_display") and operand_local(t["args"][0]) is not None and
-               any(names_target(o) for o in origins(b, operand_local(t["args"][0]))) for bb, t in b.calls())
-    ctx.check(disp, f"{short(b.name)}/id", [b.loc()], "the state file name does not contain the target id")
-    wd = {x.name for x in r.work_dir_path_fns()}
-    ctx.check(bool(atom_callres(at) & wd), f"{short(b.name)}/in-workdir", [b.loc()], "the state file is not placed in the work directory of the declaring project", props=["C18", "C03"])
-    # Display of TargetMetadata writes the id
-    for x in f.user_bodies():
-        if re.match(r"^<[\w:]*TargetMetadata as std::fmt::Display>::fmt$", x.name):
-            ok = any(atom_has_field(x.prov.operand_atoms(a), "id") for bb, t in x.calls() for a in t["args"]) or "id" in {fl for blk in x.normal_blocks() for st in blk["stmts"] for p in rv_sources(st["rv"])[0] for fl in place_fields(p)}
-            ctx.check(ok, "TargetMetadata-Display", [x.loc()], "Display of the target metadata does not print the id")
+    ctx.need(len(sp) >= 1, f"state path function (found {len(sp)})")
+    # (usually one; a second one - the scratch file a new record is written to before being renamed into place - obeys the same rule)
+    for b in sp:
+        at = b.prov.atoms(0)
+        fields = {a[2] for a in at if a[0] == "field" and path_ends(a[1], "TargetMetadata")}
+        other_fields = {(a[1], a[2]) for a in at if a[0] == "field" and not path_ends(a[1], "TargetMetadata") and not a[1].startswith("(tuple") and not path_ends(a[1], "TargetId")}
+        statics = {a[1] for a in at if a[0] == "static"}
+        ext = {c for c in atom_callres(at) if re.search(r"std::env::|process::id|SystemTime|Instant|rand|current_dir|temp_dir", c)}
+        inputs_ok = "project_dir" in fields and b.argc == 1
+        split_sites = []
+        if not inputs_ok and b.argc >= 2 and not fields:
+            # the directory and the id come in as separate parameters: every place that supplies them (through any number of pass-through functions) must
+            # supply the `project_dir` and the `id` of one and the same target
+            def supplied(body, pidx, depth=0):
+                """[(caller raw body, bb, {param index: operand})] of the outermost call sites that feed parameters `pidx` of `body`"""
+                out = []
+                fn = r.fn_of(body)
+                for (c, cbb) in f.cg.call_sites.get(fn.name, ()):
+                    if cbb is None or f.is_derived(f.bodies[c]) or f.bodies[c].term(cbb)["k"] != "call":
+                        continue
+                    cb = f.bodies[c]
+                    ct = cb.term(cbb)
+                    ops = {i: ct["args"][i - 1] for i in pidx if i - 1 < len(ct["args"])}
+                    through = {}
+                    for i, o in ops.items():
+                        at_ = cb.prov.operand_atoms(o, interproc=False)
+                        env = [a for a in at_ if a[0] == "field" and a[1].startswith("{env of")]
+                        params = [a[1] for a in at_ if a[0] == "param"]
+                        real = [a for a in at_ if a[0] in ("field", "callres") and not a[1].startswith("{env of")]
+                        if not real and (params or env) and depth < 4:
+                            # a pass-through: the caller's own parameter (directly, or captured by its async body)
+                            outer = r.fn_of(cb)
+                            if env:
+                                names = [l.get("name") for l in outer.locals[1:outer.argc + 1]]
+                                js = [names.index(a[2]) + 1 for a in env if a[2] in names]
+                            else:
+                                js = params
+                            if js:
+                                through[i] = js[0]
+                    if len(through) == len(ops) and through:
+                        inv = {}
+                        for i, j in through.items():
+                            inv[j] = i
+                        for (cc, cbb2, ops2) in supplied(r.fn_of(cb), sorted(inv), depth + 1):
+                            out.append((cc, cbb2, {inv[j]: o for j, o in ops2.items()}))
+                    else:
+                        out.append((cb, cbb, ops))
+                return out
+            dir_params = [i for i in range(1, b.argc + 1) if re.search(r"Path(Buf)?$", b.locals[i]["ty"].replace("&", "").strip())]
+            id_params = [i for i in range(1, b.argc + 1) if re.search(r"Target(Id|Metadata)$", b.locals[i]["ty"].replace("&", "").strip())]
+            sites_ = supplied(b, dir_params + id_params) if len(dir_params) == 1 and len(id_params) == 1 else []
+            inputs_ok = bool(sites_)
+            for (cb, cbb, ops) in sites_:
+                d_at = cb.prov.operand_atoms(ops[dir_params[0]], interproc=False) if dir_params[0] in ops else set()
+                i_at = cb.prov.operand_atoms(ops[id_params[0]], interproc=False) if id_params[0] in ops else set()
+                same = {a[1] for a in d_at if a[0] == "localname"} & {a[1] for a in i_at if a[0] == "localname"}
+                good = atom_has_field(d_at, "project_dir", "TargetMetadata") and (atom_has_field(i_at, "id", "TargetMetadata") or any("TargetMetadata" in cb.locals[l]["ty"] for l in [operand_local(ops[id_params[0]])] if l is not None)) and bool(same)
+                split_sites.append(site(cb, cbb))
+                if not good:
+                    inputs_ok = False
+        ctx.check(inputs_ok and not ext and not statics, f"{short(b.name)}/inputs", split_sites[:6] or [b.loc()], props=["C18", "C03"], found=
+                  f"the state path depends on something else than the target's project directory and id (fields {sorted(fields)}, statics {sorted(statics)}, external {sorted(ext)})")
+        # the id goes in through Display of the metadata / id: a Display argument built from the parameter
+        def names_target(o):
+            # the target itself (its Display prints the id) or its `id` field - not something computed from it
+            return o[0] == "param" or (o[0] == "field" and o[1] and o[1][-1] == "id" and any(x[0] == "param" for x in o[2])) or \
+                (o[0] == "field" and len(o[1]) == 1 and o[1][0].isdigit() and any(x[0] == "tuple" and int(o[1][0]) < len(x[1]) and any(names_target(y) for y in x[1][int(o[1][0])]) for x in o[2]))
+        disp = any(t["callee"]["base"].endswith("Argument::<'_>::new_display") and operand_local(t["args"][0]) is not None and
+                   any(names_target(o) for o in origins(b, operand_local(t["args"][0]))) for bb, t in b.calls())
+        ctx.check(disp, f"{short(b.name)}/id", [b.loc()], "the state file name does not contain the target id")
+        wd = {x.name for x in r.work_dir_path_fns()}
+        ctx.check(bool(atom_callres(at) & wd), f"{short(b.name)}/in-workdir", [b.loc()], "the state file is not placed in the work directory of the declaring project", props=["C18", "C03"])
+        # Display of TargetMetadata writes the id
+        for x in f.user_bodies():
+            if re.match(r"^<[\w:]*TargetMetadata as std::fmt::Display>::fmt$", x.name):
+                ok = any(atom_has_field(x.prov.operand_atoms(a), "id") for bb, t in x.calls() for a in t["args"]) or "id" in {fl for blk in x.normal_blocks() for st in blk["stmts"] for p in rv_sources(st["rv"])[0] for fl in place_fields(p)}
+                ctx.check(ok, "TargetMetadata-Display", [x.loc()], "Display of the target metadata does not print the id")
 
 
 @rule("C18.ONLY-VIA-PATH-FN", ["C18"], """the state module opens, creates and removes only paths obtained from the state path function (and creates only the work directory of the same target)""", "K4", floor=3)
@@ -1185,7 +1218,7 @@ def canonical_dirs(ctx):
                     for (cv, cbb, ct) in sites_:
                         if i - 1 >= len(ct["args"]):
                             return False
-                        cat = cv.prov.operand_atoms(ct["args"][i - 1])
+                        cat = cv.prov.atoms_with_contents(ct["args"][i - 1])   # (a list of directories filled with `push` in a loop, then iterated)
                         if atom_callres(cat) & cn:
                             continue
                         local = cv.prov.operand_atoms(ct["args"][i - 1], interproc=False)
